@@ -934,3 +934,144 @@ func ruleCopyOrOriginal(prog *Program, rep *Report, floor int, rels ...string) {
 	rep.Rules = append(rep.Rules, "M-copyall: a function that copies a slice into one it allocates (copy(dst, src), dst from make) never returns src itself: a fast path that skips the work must still hand out the copy")
 	runSynRule(prog, rep, "M-copyall", rels, matchCopyOrOriginal, fixtureCopyOrOriginal, 1, floor)
 }
+
+// ---------------------------------------------------------------- W-sep
+
+// matchSeparatorBeforeAbsent: a loop writes a list of optional elements (the loop
+// body tests a loop-local pointer against nil) and appends the separator in a
+// place that is not control dependent on the element being present: when the
+// remaining elements are absent the text ends with a separator.
+func matchSeparatorBeforeAbsent(files []*ast.File, info *types.Info) (sites []synSite, examined int) {
+	isSep := func(e ast.Expr) bool {
+		// append(X, comma...) with a []byte variable named like a separator, or append(X, ',')
+		c, ok := e.(*ast.CallExpr)
+		if !ok || len(c.Args) != 2 {
+			return false
+		}
+		if id, ok := c.Fun.(*ast.Ident); !ok || id.Name != "append" {
+			return false
+		}
+		switch a := ast.Unparen(c.Args[1]).(type) {
+		case *ast.Ident:
+			return c.Ellipsis.IsValid() && strings.Contains(strings.ToLower(a.Name), "comma")
+		case *ast.BasicLit:
+			return a.Value == "','"
+		}
+		return false
+	}
+	for _, f := range files {
+		ast.Inspect(f, func(n ast.Node) bool {
+			var body *ast.BlockStmt
+			switch l := n.(type) {
+			case *ast.RangeStmt:
+				body = l.Body
+			case *ast.ForStmt:
+				body = l.Body
+			}
+			if body == nil {
+				return true
+			}
+			// a loop-local variable tested against nil at the top level of the loop body
+			var optional types.Object
+			var nilIf *ast.IfStmt
+			for _, st := range body.List {
+				ifs, ok := st.(*ast.IfStmt)
+				if !ok {
+					continue
+				}
+				be, ok := ast.Unparen(ifs.Cond).(*ast.BinaryExpr)
+				if !ok || (be.Op != token.EQL && be.Op != token.NEQ) {
+					continue
+				}
+				id, _ := ast.Unparen(be.X).(*ast.Ident)
+				tv, ok := info.Types[be.Y]
+				if id == nil || !ok || !tv.IsNil() {
+					continue
+				}
+				o := info.Uses[id]
+				if o != nil && o.Pos() > body.Pos() && o.Pos() < body.End() {
+					optional, nilIf = o, ifs
+				}
+			}
+			if optional == nil {
+				return true
+			}
+			examined++
+			// separator appends at the top level of the body, or under conditions that do not mention the optional element
+			var walk func(st ast.Stmt, guarded bool)
+			walk = func(st ast.Stmt, guarded bool) {
+				switch s := st.(type) {
+				case *ast.BlockStmt:
+					for _, x := range s.List {
+						walk(x, guarded)
+					}
+				case *ast.IfStmt:
+					g := guarded
+					if s == nilIf {
+						be := ast.Unparen(s.Cond).(*ast.BinaryExpr)
+						// the branch where the element is present
+						if be.Op == token.NEQ {
+							walk(s.Body, true)
+							if s.Else != nil {
+								walk(s.Else, guarded)
+							}
+						} else {
+							walk(s.Body, guarded)
+							if s.Else != nil {
+								walk(s.Else, true)
+							}
+						}
+						return
+					}
+					walk(s.Body, g)
+					if s.Else != nil {
+						walk(s.Else, g)
+					}
+				case *ast.AssignStmt:
+					for _, r := range s.Rhs {
+						if isSep(r) && !guarded {
+							sites = append(sites, synSite{pos: s.Pos(), file: f, key: enclosingFuncName(f, s.Pos()) + ":separator-before-absent-member",
+								msg: "the separator is written without knowing that the element it precedes is present (the loop skips absent elements): when no later element exists the container text ends with a separator, which is not valid JSON"})
+						}
+					}
+				}
+			}
+			walk(body, false)
+			return true
+		})
+	}
+	return
+}
+
+const fixtureSeparator = `package fixture
+
+type node struct{ key string }
+
+func emit(buf []byte, cols []string, members []*node, comma []byte) []byte {
+	prev := false
+	for _, k := range cols {
+		var m *node
+		for _, mm := range members {
+			if mm.key == k {
+				m = mm
+			}
+		}
+		if prev {
+			buf = append(buf, comma...)
+		}
+		if m == nil {
+			prev = false
+			buf = append(buf, ' ')
+		} else {
+			prev = true
+			buf = append(buf, k...)
+		}
+	}
+	return buf
+}
+`
+
+func ruleSeparator(prog *Program, rep *Report) {
+	rep.Rules = append(rep.Rules, "W-sep: in a writer loop over optional elements (the loop body tests a loop-local element against nil) every append of the separator is control dependent on the element being present: a separator written before an absent element is a trailing or doubled separator")
+	runSynRule(prog, rep, "W-sep", []string{"pretty", "oj"}, matchSeparatorBeforeAbsent, fixtureSeparator, 1, 1)
+}
